@@ -467,15 +467,22 @@ Definition purge_pass (s : st) (sel : entry -> bool) : st * list req :=
     let '(d', ch, nhl) := do_purge sel d in
     (d', distribute_opt (s_fl s) p ch ++ map Unreg nhl)).
 
-Definition step_ins (s : st) (peer sess : N) (p : prefix) (pid : N) (nh0 : option nexthop) (tok : N) : st * list req :=
+(* insert_route; [inv_seen] is the set of unreachable next hops it consults: since the
+   fix of finding C20-4 the set is read inside the shard lock ([s_inv s]); before, it was
+   read before the lock was taken, possibly before a reachability report that was
+   applied to the shard first (run_race below) *)
+Definition step_ins_with (s : st) (inv_seen : list N) (peer sess : N) (p : prefix) (pid : N) (nh0 : option nexthop) (tok : N) : st * list req :=
     let d := s_get s p in
     let old_nh := lookup_nexthop d peer pid in
     let '(filtered, nh) := apply_import (s_pol s) peer nh0 in
-    let invf := match oaddr nh with Some a => memN a (s_inv s) | None => false end in
+    let invf := match oaddr nh with Some a => memN a inv_seen | None => false end in
     let '(d', ch) := do_insert (s_fl s) d (peer, sess) pid nh tok (attr_of tok) filtered invf in
     ({| s_keys := add_key p (s_keys s); s_get := upd p d' (s_get s); s_fl := s_fl s;
         s_inv := s_inv s; s_pol := s_pol s; s_def := s_def s |},
      gate (s_def s) p (nht_register peer (oaddr nh) old_nh ++ distribute_opt (s_fl s) p ch)).
+
+Definition step_ins (s : st) (peer sess : N) (p : prefix) (pid : N) (nh0 : option nexthop) (tok : N) : st * list req :=
+  step_ins_with s (s_inv s) peer sess p pid nh0 tok.
 
 (* Table::insert's prefix-limit test: a peer's first path for a prefix is refused
    (before anything is registered or installed) when its counter has reached the limit *)
@@ -574,6 +581,17 @@ Fixpoint observe (s : st) (ops : list op) : list val :=
 End WithCfg.
 
 Definition run_case (v : variant) (c : cfg) (ops : list op) : val := VL (observe c v st0 ops).
+
+(* an insert_route racing reachability reports: after the history [pre] the inserting
+   thread runs up to its shard-lock acquisition, another thread performs [mids]
+   completely, then the insert takes the lock.  [early = true] is the code before the
+   fix of finding C20-4 (unreachable set loaded before the lock). *)
+Definition run_race (early : bool) (c : cfg) (pre : list op)
+           (peer sess : N) (p : prefix) (pid : N) (nh : option nexthop) (tok : N) (mids : list op) : val :=
+  let '(s0, _) := run c Fixed st0 pre in
+  let '(s1, r1) := run c Fixed s0 mids in
+  let '(s2, r2) := step_ins_with c Fixed s1 (if early then s_inv s0 else s_inv s1) peer sess p pid nh tok in
+  VL (observe c Fixed st0 pre ++ [VL [VList v_req (r1 ++ r2); v_view s2]]).
 
 (* ---- kernel/src/lib.rs run_service_loop, the RegisterNexthop / UnregisterNexthop
    arms: [watched : HashMap<IpAddr, u32>] (an absent address counts 0) and the
